@@ -358,8 +358,8 @@ def run_shard(shard):
             if entry is not None and gsel is None and rsel == "unset" and om == "ignore":
                 derived_scope_history(acc, shape, entry, runner)
                 acc.key((tuple(shape), entry, "run-then-derive", runner))
-            if runner == "sync" or tier == "thorough":
-                # None / falsy produced values (one mode per configuration in the quick tier, all three in the thorough tier)
+            if runner == "sync":
+                # None / falsy produced values, sync runner (one mode per configuration in the quick tier, all three in the thorough tier)
                 for vm in (list(VALMODES) if tier == "thorough" else [list(VALMODES)[ci % 3]]):
                     run_dag_config(acc, shape, entry, gsel, rsel, om, runner, None, vm)
                     acc.key((tuple(shape), entry, repr(gsel), repr(rsel), om, runner, "values", vm))
